@@ -198,11 +198,25 @@ func doShard(in *shardIn, r *verifx.Rng) {
 			h.Viol("shard-depends-on-timestamp", "ts %d -> %s/%s, ts %d -> %s/%s for %+v", in.ts, o.raw, o.ag, ts2, o2.raw, o2.ag, *in)
 		}
 	}
-	// agent and API agree for fixed / by-metric sharding (same metric id on both sides, same by-metric count)
-	if o.sharded && o.ok && in.mid == in.km {
-		h.Stat("shard.agreeChecked", 1)
-		if o.apiN != o.s1 {
-			h.Viol("agent-api-shard-differ", "agent writes shard %d, API reads shard %d for %+v", o.s1, o.apiN, *in)
+	// agent and API agree for fixed / by-metric sharding (same metric id on both sides, same by-metric count).
+	// The API side is chutil: shard = meta.Shard(byMetricShards); a shard >= the real shard count means "ask all shards".
+	// So whenever the API reads ONE specific shard, the agent must have written the metric to exactly that shard —
+	// also when the by-metric count is smaller than the number of shards (cluster grown, by-metric metrics pinned).
+	if o.sharded && in.mid == in.km && in.cnt >= 1 { // by-metric count 0 is not a configuration the aggregator hands out
+		if o.apiN >= 0 && o.apiN < in.ns {
+			h.Stat("shard.agreeChecked", 1)
+			if in.cnt < uint32(in.ns) {
+				h.Stat("shard.agreeChecked(byMetric<shards)", 1)
+				if uint32(o.apiN) >= in.cnt {
+					h.Stat("shard.agreeChecked(shard>=byMetric)", 1)
+				}
+			}
+			if !o.ok || o.apiN != o.s1 {
+				h.Viol("agent-api-shard-differ", "API reads shard %d of %d (by-metric count %d); agent writes shard %d ok=%v for %+v",
+					o.apiN, in.ns, in.cnt, o.s1, o.ok, *in)
+			}
+		} else if o.ok {
+			h.Viol("agent-api-shard-differ", "agent accepted shard %d but the API reads all shards (Shard()=%d of %d) for %+v", o.s1, o.apiN, in.ns, *in)
 		}
 	}
 	if !o.sharded && o.apiN != -1 {
@@ -311,6 +325,31 @@ func shardGrid(maxNS int) {
 								n++
 							}
 						}
+					}
+				}
+			}
+		}
+	}
+	// every shard index (incl. the highest) as fixed key / fixed_shard number, under every relation of the by-metric
+	// count to the number of shards: 1, below, equal
+	for ns := 1; ns <= maxNS; ns++ {
+		for _, cnt := range uniq(1, ns/2, ns-1, ns) {
+			if cnt == 0 {
+				continue
+			}
+			for idx := 0; idx < ns; idx++ {
+				for _, st := range []int{0, 1, 2} {
+					for _, viaKey := range []bool{true, false} {
+						in := &shardIn{st: st, mid: int32(100 + idx), km: int32(100 + idx), cnt: uint32(cnt), ns: ns, ts: 1700000000 + uint32(n)}
+						if viaKey {
+							in.fk = uint32(idx + 1)
+						} else if st == 0 {
+							in.num = uint32(idx)
+						} else {
+							continue
+						}
+						doShard(in, r)
+						n++
 					}
 				}
 			}
@@ -674,10 +713,49 @@ func tickerFacts(repo string) (rangeOver string, source string, skips []string, 
 	return rangeOver, source, skips, sendFound, nil
 }
 
+// chutil: the statement that asks the metric for its shard and the clamp that follows it
+func apiFacts(repo string) (call, clampCond, clampBody, zeroCond, zeroBody string, err error) {
+	fset := token.NewFileSet()
+	f, err := parser.ParseFile(fset, filepath.Join(repo, "internal/chutil/chutil.go"), nil, 0)
+	if err != nil {
+		return "", "", "", "", "", err
+	}
+	ast.Inspect(f, func(n ast.Node) bool {
+		blk, ok := n.(*ast.BlockStmt)
+		if !ok {
+			return true
+		}
+		for i, st := range blk.List {
+			as, ok := st.(*ast.AssignStmt)
+			if !ok || len(as.Rhs) != 1 || !strings.Contains(exprString(fset, as.Rhs[0]), ".Shard(") || call != "" {
+				continue
+			}
+			call = exprString(fset, as)
+			if i+1 < len(blk.List) {
+				if is, ok := blk.List[i+1].(*ast.IfStmt); ok {
+					clampCond, clampBody = exprString(fset, is.Cond), exprString(fset, is.Body)
+				}
+			}
+			if i > 0 {
+				if is, ok := blk.List[i-1].(*ast.IfStmt); ok {
+					zeroCond, zeroBody = exprString(fset, is.Cond), exprString(fset, is.Body)
+				}
+			}
+		}
+		return true
+	})
+	return
+}
+
 func leanStr(s string) string { return "\"" + strings.ReplaceAll(strings.ReplaceAll(s, "\\", "\\\\"), "\"", "\\\"") + "\"" }
 
 func gen(repo string) {
 	rangeOver, source, skips, sendFound, err := tickerFacts(repo)
+	if err != nil {
+		fmt.Fprintln(os.Stderr, err)
+		os.Exit(1)
+	}
+	call, clampCond, clampBody, zeroCond, zeroBody, err := apiFacts(repo)
 	if err != nil {
 		fmt.Fprintln(os.Stderr, err)
 		os.Exit(1)
@@ -699,9 +777,16 @@ def tickerSource : String := %s
 /-- goTicker: conditions under which a ready bucket is skipped (`+"`continue`"+`) before `+"`a.bucketsToSend <- aggBucket`"+` -/
 def tickerSkipConds : List String := [%s]
 def tickerSends : Bool := %v
+/-- chutil: how the API picks the shard to read (the call, the clamp after it, the default before it) -/
+def apiShardCall : String := %s
+def apiClampCond : String := %s
+def apiClampBody : String := %s
+def apiZeroCond : String := %s
+def apiZeroBody : String := %s
 
 end SH.Gen.C10
-`, aggregator.VerifC10FutureWindow(), aggregator.VerifC10MaxShortWindow(), leanStr(rangeOver), leanStr(source), strings.Join(qs, ", "), sendFound)
+`, aggregator.VerifC10FutureWindow(), aggregator.VerifC10MaxShortWindow(), leanStr(rangeOver), leanStr(source), strings.Join(qs, ", "), sendFound,
+		leanStr(call), leanStr(clampCond), leanStr(clampBody), leanStr(zeroCond), leanStr(zeroBody))
 }
 
 // ------------------------------------------------------------------------------------------------ main
